@@ -18,14 +18,14 @@ MANIFEST = {
     "text": "For 15 readable formats a file of N frames (quick N=5; thorough N in {1,5,7}) is written once; then the complete "
             "product stride 1..S x atom_indices {None,[0],[1,3],all-but-first} for md.load, every frame index for "
             "load(frame=)/load_frame, chunk 0..N+1 x stride x skip 0..K x atom_indices for md.iterload (horizon N+3 "
-            "chunks), file lists of length 1..3 (also two consecutive loads through ONE Topology object), a hand-written CHARMM fixed-atom DCD and a 10-atom mdcrd without box line is executed and compared field by field (xyz, time, cell lengths and "
+            "chunks), file lists of length 1..3 (also two consecutive loads through ONE Topology object), a hand-written CHARMM fixed-atom DCD a 10-atom mdcrd without box line and a LAMMPS dump whose atom lines are permuted in every frame is executed and compared field by field (xyz, time, cell lengths and "
             "angles bit-for-bit, topology ==) with the same slicing of the full load. Exhaustive over the listed axes.",
     "note": "Differential oracle: the full load is trusted here (C01 anchors it). 6 atoms, small N; .arc uses a generated "
             "5-frame file. Formats without stored time are compared on the times the loaders synthesise.",
     "ref": "DESIGN.md §3 C02, §2.3",
 }
 
-FORMATS = ["h5", "xtc", "trr", "dcd", "fixed.dcd", "nc", "mdcrd", "nobox10.mdcrd", "xyz", "xyz.gz", "lammpstrj", "gro", "pdb", "pdb.gz", "dtr", "arc"]
+FORMATS = ["h5", "xtc", "trr", "dcd", "fixed.dcd", "nc", "mdcrd", "nobox10.mdcrd", "shuffled.lammpstrj", "xyz", "xyz.gz", "lammpstrj", "gro", "pdb", "pdb.gz", "dtr", "arc"]
 HAS_TOP = {"h5", "pdb", "pdb.gz", "lh5", "gro", "arc"}
 NATOMS = 8
 AI_MENU = [None, [0], [1, 3], [0, 2, 3, 6], [1, 2, 3, 4, 5, 6, 7]]
@@ -114,6 +114,26 @@ def make_files(scratch, repo, fmt, n, seed, copies=3):
             _arc_file(repo, p, n)
         elif fmt == "fixed.dcd":
             _dcd_fixed_file(p, _ref_traj(n, seed + 10 * c), [0, 3, 4])
+        elif fmt == "shuffled.lammpstrj":
+            # LAMMPS writes atom lines in arbitrary order unless `dump_modify sort id` is set: same data, the lines of every
+            # frame permuted (the id column, not the line position, says which atom a line belongs to)
+            tmp = p + ".sorted.lammpstrj"
+            _ref_traj(n, seed + 10 * c).save(tmp)
+            out, block = [], []
+            perm = [5, 2, 7, 0, 3, 6, 1, 4]
+            lines = open(tmp).read().splitlines()
+            i = 0
+            while i < len(lines):
+                out.append(lines[i])
+                if lines[i].startswith("ITEM: ATOMS"):
+                    block = lines[i + 1:i + 1 + NATOMS]
+                    k = (len(out) // 7) % NATOMS
+                    out += [block[(q + k) % NATOMS] for q in perm]
+                    i += NATOMS
+                i += 1
+            os.remove(tmp)
+            with open(p, "w") as fh:
+                fh.write("\n".join(out) + "\n")
         elif fmt == "nobox10.mdcrd":
             t0 = _ref_traj10(n, seed)
             _ref_traj10(n, seed + 10 * c).save(p)
